@@ -90,6 +90,38 @@ impl InsituAd {
         }));
         self.hub = Some(hub);
     }
+    fn build_s4(&mut self, cfg: &Value, sim: &mut Sim) {
+        use tower_resilience_cache::{CacheLayer, EvictionPolicy};
+        let (tl, ca, bh) = (&cfg["tl"], &cfg["ca"], &cfg["bh"]);
+        let hub = Hub::new(&[("timelimiter", tl.clone()), ("cache", ca.clone()), ("bulkhead", bh.clone())], sim.seed, sim.run, cfg["size"].as_str().unwrap_or("quick"), cfg);
+        hub.lock().unwrap().t0 = sim.t0;
+        self.opf = None;
+        let p3 = Probe::new(Inner::new(&sim.w), &hub, 3);
+        let mut b = BulkheadLayer::builder().max_concurrent_calls(bh["max"].as_u64().unwrap() as usize);
+        let wait = bh["wait"].as_i64().unwrap();
+        if wait >= 0 {
+            b = b.max_wait_duration(Duration::from_millis(wait as u64));
+        }
+        let p2 = Probe::new(b.build().layer(p3), &hub, 2);
+        let pol = match ca["pol"].as_str().unwrap() {
+            "lru" => EvictionPolicy::Lru,
+            "lfu" => EvictionPolicy::Lfu,
+            _ => EvictionPolicy::Fifo,
+        };
+        let mut cb = CacheLayer::<Req, CKey>::builder().max_size(ca["max"].as_u64().unwrap() as usize).eviction_policy(pol).key_extractor(|r: &Req| CKey(r.key));
+        let ttl = ca["ttl"].as_i64().unwrap();
+        if ttl >= 0 {
+            cb = cb.ttl(if ttl >= 1000000 { Duration::MAX } else { Duration::from_millis(ttl as u64) });
+        }
+        let p1 = Probe::new(cb.build().layer(p2), &hub, 1);
+        let tv = tl["T"].as_u64().unwrap();
+        let t = if tv >= 1000000 { Duration::MAX } else { Duration::from_millis(tv) };
+        let tlb = TimeLimiterLayer::builder();
+        let tll = if tl["ord"].as_u64().unwrap_or(0) == 1 { tlb.cancel_running_future(true).timeout_duration(t).build() } else { tlb.timeout_duration(t).cancel_running_future(true).build() };
+        let p0 = Probe::new(tll.layer(p1), &hub, 0);
+        self.mkf = Some(top(p0));
+        self.finish_build(hub, sim);
+    }
     fn build_s3(&mut self, cfg: &Value, sim: &mut Sim) {
         use tower_resilience_adaptive::{AdaptiveLimiterLayer, Aimd, Algorithm, Vegas};
         use tower_resilience_coalesce::CoalesceLayer;
@@ -250,6 +282,14 @@ impl Adapter for InsituAd {
     fn gen_cfg(&mut self, rng: &mut Rng, size: Size) -> Value {
         let sz = if size == Size::Quick { "quick" } else { "thorough" };
         match self.stack.as_str() {
+            // S4: time limiter (cancelling) over cache (TTL, three policies, colliding-hash keys) over bulkhead
+            "S4" => {
+                let nk = 2 + rng.below(4);
+                json!({"stack": "S4", "size": sz,
+                    "tl": {"T": *rng.pick(&[3u64, 5, 8, 1000000]), "perReq": 0, "cancel": 1, "ord": rng.below(2), "lazy": 0},
+                    "ca": {"max": 1 + rng.below(nk.min(4)), "ttl": *rng.pick(&[-1i64, 2, 5, 9, 1000000]), "pol": *rng.pick(&["lru", "lfu", "fifo"]), "shared": 1, "nkeys": nk, "ctor": 0},
+                    "bh": {"max": 1 + rng.below(3), "wait": *rng.pick(&[-1i64, 0, 1, 3])}})
+            }
             // S3: adaptive limiter over rate limiter (three window types, waiting callers) over coalescer
             "S3" => {
                 let min = 1 + rng.below(2);
@@ -289,6 +329,9 @@ impl Adapter for InsituAd {
         }
         if cfg["stack"] == "S3" {
             return self.build_s3(cfg, sim);
+        }
+        if cfg["stack"] == "S4" {
+            return self.build_s4(cfg, sim);
         }
         let (tl, cb, bh) = (&cfg["tl"], &cfg["cb"], &cfg["bh"]);
         let hub = Hub::new(&[("timelimiter", tl.clone()), ("circuitbreaker", cb.clone()), ("bulkhead", bh.clone())], sim.seed, sim.run, cfg["size"].as_str().unwrap_or("quick"), cfg);
@@ -378,6 +421,20 @@ impl Adapter for InsituAd {
         (Value::Null, Obj::new())
     }
     fn params(&self, cfg: &Value, size: Size, rng: &mut Rng) -> DriveParams {
+        if cfg["stack"] == "S4" {
+            let mut p = DriveParams::default();
+            p.n = if size == Size::Quick { 10 + rng.below(8) } else { 14 + rng.below(12) };
+            p.keys = cfg["ca"]["nkeys"].as_u64().unwrap_or(3) as u32;
+            p.steps = if size == Size::Quick { 110 } else { 240 };
+            p.horizon = 40;
+            p.outs = vec![(GOut::Ok, 8), (GOut::Err(1), 2), (GOut::Panic, 1)];
+            p.w_drop = 1;
+            p.w_create = 6;
+            p.w_complete = 6;
+            p.w_adv = 2;
+            p.max_adv = 3;
+            return p;
+        }
         if cfg["stack"] == "S3" {
             let mut p = DriveParams::default();
             p.n = if size == Size::Quick { 6 + rng.below(5) } else { 8 + rng.below(8) };
